@@ -248,6 +248,8 @@ class Net:
         self._saved: list[tuple[typing.Any, str, typing.Any]] = []
         self.lock = threading.RLock()
         self.max_open = 0
+        self.checkout_fault_socks: set[int] = set()
+        self.raised: list[BaseException] = []  # every exception object this network raised into urllib3, in order
         self.on_event: typing.Callable[[tuple[typing.Any, ...]], None] | None = None
         self.before_dial_hook: typing.Callable[[dict[str, typing.Any]], None] | None = None
 
@@ -263,6 +265,23 @@ class Net:
         self._patch(ur, "time", self.clock)
         if self.fake_tls:
             self._patch(uc, "_ssl_wrap_socket_and_match_hostname", self._fake_tls_wrap)
+        import urllib3.connectionpool as ucp
+
+        real_probe = ucp.is_connection_dropped
+
+        def probing(conn: typing.Any) -> bool:
+            """the pool's liveness probe at checkout of a pooled connection: a scripted fault may strike here"""
+            self._event("checkout-probe", getattr(getattr(getattr(conn, "sock", None), "vf", None), "index", None))
+            act = self._script_call("on_checkout", conn)
+            if isinstance(act, BaseException):
+                self.raised.append(act)
+                idx = getattr(getattr(getattr(conn, "sock", None), "vf", None), "index", None)
+                if idx is not None:
+                    self.checkout_fault_socks.add(idx)
+                raise act
+            return real_probe(conn)
+
+        self._patch(ucp, "is_connection_dropped", probing)
         return self
 
     def __exit__(self, *a: typing.Any) -> None:
@@ -311,7 +330,7 @@ class Net:
     # -- dialing --------------------------------------------------------------------------------
     def create_connection(self, address: tuple[str, int], timeout: typing.Any = None, source_address: typing.Any = None, socket_options: typing.Any = None) -> socket.socket:
         host, port = address
-        dial = {"n": len(self.dials), "host": host, "port": port, "timeout": timeout, "source_address": source_address, "socket_options": socket_options, "t": self.clock.now, "open_before": self.open_count()}
+        dial = {"n": len(self.dials), "host": host, "port": port, "timeout": timeout, "source_address": source_address, "socket_options": socket_options, "t": self.clock.now, "open_before": sum(1 for st in self.states if not st.really_closed and st.index not in self.checkout_fault_socks)}
         with self.lock:
             self.dials.append(dial)
         self._event("dial", dial["n"], host, port, repr(timeout))
@@ -333,6 +352,7 @@ class Net:
             act = None
         if isinstance(act, BaseException):
             dial["outcome"] = type(act).__name__
+            self.raised.append(act)
             raise act
         a, b = socket.socketpair()
         cs = ScriptedSocket(a.family, a.type, a.proto, fileno=a.detach())
@@ -366,7 +386,8 @@ class Net:
         self._event("send", st.index, n, len(data))
         act = self._script_call("on_send", st, n, data)
         if isinstance(act, BaseException):
-            self._event("send-fault", st.index, n, type(act).__name__)
+            self._event("send-fault", st.index, n, type(act).__name__, id(act))
+            self.raised.append(act)
             if not isinstance(act, BrokenPipeError) or True:
                 # the peer is gone for any send fault: nothing more will ever be answered
                 pass
@@ -455,22 +476,26 @@ class Net:
         self._event("recv", st.index, n)
         if n in st.recv_faults:
             exc = st.recv_faults.pop(n)
-            self._event("recv-fault", st.index, n, type(exc).__name__)
+            self._event("recv-fault", st.index, n, type(exc).__name__, id(exc))
+            self.raised.append(exc)
             raise exc
         act = self._script_call("on_recv", st, n)
         if isinstance(act, BaseException):
-            self._event("recv-fault", st.index, n, type(act).__name__)
+            self._event("recv-fault", st.index, n, type(act).__name__, id(act))
+            self.raised.append(act)
             raise act
         if st.fault_on_recv is not None:
             exc, st.fault_on_recv = st.fault_on_recv, None
-            self._event("recv-fault", st.index, n, type(exc).__name__)
+            self._event("recv-fault", st.index, n, type(exc).__name__, id(exc))
+            self.raised.append(exc)
             raise exc
         self._flush(st)
         if self._readable(sock) and not (st.peer_closed and st.fault_when_drained is not None and not self._has_data(sock)):
             return
         if st.fault_when_drained is not None and not st.segments and not st.outq:
             exc, st.fault_when_drained = st.fault_when_drained, None
-            self._event("recv-fault", st.index, n, type(exc).__name__)
+            self._event("recv-fault", st.index, n, type(exc).__name__, id(exc))
+            self.raised.append(exc)
             raise exc
         if st.segments:
             seg = st.segments.popleft()
@@ -565,6 +590,13 @@ class AttemptScript:
             return make_exc(o["err"])
         return None
 
+    def on_checkout(self, net: Net, conn: typing.Any) -> typing.Any:
+        o = self._peek()
+        if o is not None and o["k"] == "checkout":
+            self._consume("checkout", None)
+            return make_exc(o["err"])
+        return None
+
     def on_tls(self, net: Net, st: SockState, kw: dict[str, typing.Any]) -> typing.Any:
         o = self._peek()
         if o is not None and o["k"] == "tls":
@@ -610,7 +642,7 @@ class AttemptScript:
         o = self._consume("request", sc.index, req)
         st = sc.st
         k = o["k"]
-        if k in ("connect", "send", "proxy_connect", "tls"):
+        if k in ("connect", "send", "proxy_connect", "tls", "checkout"):
             # an outcome that can no longer happen for this attempt (connection reused, no proxy ...): treat as 200
             self.log[-1]["not_applicable"] = True
             o = dict(self.default)
